@@ -29,6 +29,17 @@ def classify(prop, sig):
                                                                "rename:rename:metadata/tmp:metadata") and \
                 ("holds 0 bytes" in sig.get("what", "") or "holds b''" in sig.get("what", "")):
             return "C09-F1"
+    if prop == "C10":
+        cb, what = sig.get("crash_before", ""), sig.get("what", "")
+        if cb.startswith("after a one-off EIO at rename:rename:") and any(cb.startswith("after a one-off EIO at " + x) for x in (
+                "rename:rename:objects/tmp:objects#0", "rename:rename:refs/tmp:refs/pids#0", "rename:rename:metadata/tmp:metadata#0")) and (
+                "holds 0 bytes" in what or "holds b''" in what or
+                what in ("recovery: pid not retrievable with the right bytes after re-storing",
+                         "metadata document served with bytes that are not a supplied version")):
+            return "C10-F1"
+        if cb.startswith("after a one-off EIO at write:write:refs/cids#0") and \
+                what == "a shared reference list gained a line for the interrupted pid without its pid reference":
+            return "C10-F2"
     if prop == "C13":
         site = sig.get("site", "")
         refs_site = ":refs/cids" in site or ":refs/pids" in site
